@@ -1737,6 +1737,55 @@ def network_operators(mk):
             check_unchanged(hx, tag + f"tn {nm}: network the receiver was copied from", x, fx)
 
 
+@obligation(PROP)
+def network_sums_axis_order(mk):
+    """third round: sums of two structure-matching networks -- tensor_network_sum (generic), tensor_network_ag_sum (a + b, a - b on
+    arbitrary-geometry vectors) and MatrixProductState + / - -- give dense(A) +/- dense(B) whatever the stored axis order of the
+    tensors of EITHER operand (each operand permuted independently), and leave both operands untouched"""
+    mk.encodes(tc.tensor_network_sum, tc.tensor_direct_product, qtn.tensor_network_ag_sum,
+               qtn.MatrixProductState.__add__, qtn.MatrixProductState.__sub__)
+    hx = HX(mk, "tn-sum: ")
+    hy = HX(mk, "tn-sum-b: ")
+    A = R_TNC(hx)
+    B = R_TNC(hy)
+    out = ("p", "q", "r")
+    dA, dB = ref.tn_dense(A, out), ref.tn_dense(B, out)
+    for ha in (None, "rev", "roll", "mixed"):
+        for hb in (None, "rev", "mixed"):
+            a = A if ha is None else permute_network(A, ha)
+            b = B if hb is None else permute_network(B, hb)
+            tag = f"[A {ha or 'as built'}, B {hb or 'as built'}] "
+            w = _Watch(hx, tag + "tensor_network_sum", a, b)
+            r = tc.tensor_network_sum(a, b)
+            w.done()
+            hx.same(tag + "tensor_network_sum: outer labels", sorted(r.outer_inds()), sorted(out))
+            hx.eq(tag + "tensor_network_sum == dense(A) + dense(B)", ref.tn_dense(r, out), dA + dB)
+    # arbitrary-geometry vectors and MPS: operators + and -
+    sites = (0, 1, 2)
+
+    def gen_vec(h):
+        ts = [_T(h, "V0", (2, 2), ("b01", "k0"), ["I0"]), _T(h, "V1", (2, 2, 2), ("b01", "b12", "k1"), ["I1"]),
+              _T(h, "V2", (2, 2), ("b12", "k2"), ["I2"])]
+        return qtn.TensorNetworkGenVector.from_TN(tc.TensorNetwork(ts), site_tag_id="I{}", site_ind_id="k{}", sites=sites)
+
+    def mps(h):
+        return qtn.MatrixProductState([h.arr("M0", (2, 2)), h.arr("M1", (2, 2, 2)), h.arr("M2", (2, 2))])
+
+    kout = ("k0", "k1", "k2")
+    for nm, mkr in (("TensorNetworkGenVector", gen_vec), ("MatrixProductState", mps)):
+        X, Y = mkr(hx), mkr(hy)
+        dX, dY = ref.tn_dense(X, kout), ref.tn_dense(Y, kout)
+        for ha, hb in ((None, None), ("rev", None), (None, "rev"), ("mixed", "roll"), ("roll", "rev")):
+            x = X if ha is None else permute_network(X, ha)
+            y = Y if hb is None else permute_network(Y, hb)
+            tag = f"[{nm}: a {ha or 'as built'}, b {hb or 'as built'}] "
+            w = _Watch(hx, tag + "a + b / a - b", x, y)
+            rp, rm = x + y, x - y
+            w.done()
+            hx.eq(tag + "a + b == dense(a) + dense(b)", ref.tn_dense(rp, kout), dX + dY)
+            hx.eq(tag + "a - b == dense(a) - dense(b)", ref.tn_dense(rm, kout), dX - dY)
+
+
 # ======================================================================================
 # reflection obligation + META
 # ======================================================================================
